@@ -303,6 +303,21 @@ fn builder_sequence(rng: &mut Rng, rep: &mut Report, len: usize) {
                 if b.code.len() != old_code.len() || b.source_map.len() != old_sm.len() { rep.fail(&format!("{}add_constant/ensures#frame", B), &trace); }
                 continue;
             }
+            _ if rng.below(4) == 0 => {
+                // reserve a range and give it back: the view must return to what it was
+                let k = rng.below(6) as usize;
+                let oa = allocated(&old_regs);
+                if let Ok(start) = b.reserve_registers(k) {
+                    let mid = allocated(&snap(&b.registers));
+                    if (start as usize..start as usize + k).any(|x| oa[x]) { rep.fail(&format!("{}reserve_registers/ensures#ok_fresh", B), &trace); }
+                    if (start as usize..start as usize + k).any(|x| !mid[x]) { rep.fail(&format!("{}reserve_registers/ensures#ok_view", B), &trace); }
+                    b.free_registers(start, k);
+                    trace.push_str(&format!(" reserve_registers({})->{} free_registers", k, start));
+                    if allocated(&snap(&b.registers)) != oa { rep.fail(&format!("{}free_registers/ensures#view", B), &trace); }
+                    if !wf(&snap(&b.registers)) { rep.fail(&format!("{}free_registers/ensures#wf", B), &trace); }
+                }
+                continue;
+            }
             _ if rng.below(3) == 0 => {
                 let oa = allocated(&old_regs);
                 let owned: Vec<u8> = (0..=255u16).filter(|r| oa[*r as usize]).map(|r| r as u8).collect();
